@@ -302,6 +302,9 @@ def run(ctx):
     params = _wrapper(ctx)
     _reverse(ctx, params)
     _source_times(ctx)
+    from .c02 import reverse_is_inverse
+
+    reverse_is_inverse(ctx, "R4.8")
     ctx.require_count("C04", len(ctx.obligations), 35)
     ctx.trusted_base += [
         "counting-loop summary of eqxi.while_loop; recording models of jax.custom_vjp / jax.vjp (sa/driver.py)",
